@@ -290,6 +290,8 @@ func specOf(hexs string) string {
 }
 
 func exec(c vh.Case, o *vh.Out) {
+	saved := chunk.DefaultBlockSize
+	defer func() { chunk.DefaultBlockSize = saved }() // `defsize` is case-local
 	for _, line := range c.Ops {
 		f := strings.Fields(line)
 		switch {
@@ -414,6 +416,19 @@ func exec(c vh.Case, o *vh.Out) {
 				tot += l
 			}
 			o.Emit("n=%d total=%d lens=%s", len(lens), tot, rle(lens))
+		case len(f) == 2 && f[0] == "defsize":
+			// a legal change of the exported variable (e.g. UnixFSProfile.ApplyGlobals sets 1 MiB)
+			chunk.DefaultBlockSize = int64(vh.Atoi(f[1]))
+			for _, spec := range []string{"", "default"} {
+				if s, err := chunk.FromString(bytes.NewReader(nil), spec); err != nil || describe(s).min != uint64(chunk.DefaultBlockSize) {
+					o.Fail("default-size-stale", "DefaultBlockSize=%d but FromString(%q) does not split at that size", chunk.DefaultBlockSize, spec)
+				}
+			}
+			if describe(chunk.DefaultSplitter(bytes.NewReader(nil))).min != uint64(chunk.DefaultBlockSize) {
+				o.Fail("default-size-stale", "DefaultBlockSize=%d but DefaultSplitter does not split at that size", chunk.DefaultBlockSize)
+			}
+			o.Kind("defsize")
+			o.Emit("ok")
 		case len(f) == 2 && f[0] == "register":
 			name := specOf(f[1])
 			res := "ok"
@@ -790,6 +805,19 @@ func gen(r *vh.Rand, tier string, n int, emit func(vh.Case)) {
 			default: // periodic data with period near the window
 				pl := vh.Pick(cr, []int{31, 32, 33, 64})
 				split("buzhash", ewd, fr, fmt.Sprintf("p:%s:%d", vh.Hex(cr.Bytes(pl)), buzMin+cr.Range(0, 70000)), 0)
+			}
+			emit(c)
+			continue
+		}
+		if cr.Chance(1, 25) { // DefaultBlockSize changed at run time: "", "default", bare "rabin" follow it
+			n := vh.Pick(cr, []int{1 << 20, 65536, 4096, 1000, 300000, 1397931, 48, 100})
+			c.Ops = append(c.Ops, fmt.Sprintf("defsize %d", n), "parse "+specHex(""), "parse "+specHex("default"), "parse "+specHex("rabin"), "parse "+specHex("size-7"))
+			if n <= 4096 {
+				split(vh.Pick(cr, []string{"", "default"}), cr.Bool(), randomFrags(cr, n), fmt.Sprintf("r:%d:%d", cr.Intn(1e6), n*cr.Range(1, 3)+cr.Range(-1, 1)), 0)
+				split("rabin", cr.Bool(), randomFrags(cr, n), fmt.Sprintf("r:%d:%d", cr.Intn(1e6), cr.Range(n, 4*n)), uint64(n))
+			}
+			if cr.Bool() {
+				c.Ops = append(c.Ops, fmt.Sprintf("defsize %d", 262144), "parse "+specHex("default"))
 			}
 			emit(c)
 			continue
